@@ -189,7 +189,7 @@ def minimise_n(run, fam, n, tool, args, timeout, sig=None):
     return hi, best
 
 
-def minimise_lines(run, data, tool, args, timeout, budget=80, sig=None):
+def minimise_lines(run, data, tool, args, timeout, budget=40, sig=None):
     """ddmin over lines, then over 64-byte blocks; keeps any misbehaviour of the tool"""
     def parts_of(d, by):
         return d.split(b"\n") if by == "line" else [d[i:i + 64] for i in range(0, len(d), 64)]
@@ -262,7 +262,7 @@ def report_bad(ctx, run, timeout):
                 data, r = G.shape(fam, mn), mr
             else:
                 mn = n
-        elif r["cls"] != "timeout" and len(data) < 400000:
+        elif r["cls"] != "timeout" and 256 <= len(data) < 400000:
             d2, r2 = minimise_lines(run, data, tool, args, tmo, sig=r["sig"])
             if r2:
                 data, r = d2, r2
